@@ -313,7 +313,7 @@ func Check() *common.Check {
 		Level: "fault_enumeration",
 		// every case is recorded before it runs: a fatal error or a hang of the worker is attributed to it
 		CrashSafe: true,
-		Rule: "for each input (one statement per poll-site context: plain, CTE, nested CTE, CASE, scalar/IN/EXISTS/quantified sub-query, derived table, JOIN ON, set operation, function argument, BETWEEN/IN/LIKE, array index, INSERT…SELECT, DML, script, invalid, 250- and 1000-token lists, statements and scripts of about 300 / 1030 / 2060 / 5000 tokens with two-word keywords all along (sparse polls), 26 lexical layouts, every clause option of sqlgen, an input one byte over the size limit (thorough: one over the token limit; polls 0-2, P/2, P-2..P only); " +
+		Rule: "(every fault point also with two other kinds of context - one cancelled with a cause of the caller's own, one hand-written around a live standard context - except for the clause-option inputs) for each input (one statement per poll-site context: plain, CTE, nested CTE, CASE, scalar/IN/EXISTS/quantified sub-query, derived table, JOIN ON, set operation, function argument, BETWEEN/IN/LIKE, array index, INSERT…SELECT, DML, script, invalid, 250- and 1000-token lists, statements and scripts of about 300 / 1030 / 2060 / 5000 tokens with two-word keywords all along (sparse polls), 26 lexical layouts, every clause option of sqlgen, an input one byte over the size limit (thorough: one over the token limit; polls 0-2, P/2, P-2..P only); " +
 			"thorough adds comments, empty input, tokenizer error, MERGE, CREATE TABLE, window frame, 2500 tokens and every expression hole of sqlgen.Holes() filled with a nested expression) and each of gosqlx.ParseWithContext, Tokenizer.TokenizeContext, Parser.ParseContextFromModelTokens: " +
 			"gosqlx.ParseWithTimeout with timeouts 0, -1ns, -1ms, -1h (expired at entry) and 1h (never fires) on every input; " +
 			"P = polls of ctx.Err() in an undisturbed run is measured, then one case per k in 0..P and per kind in {Canceled, DeadlineExceeded} with a context that reports done from its (k+1)-th poll on; " +
@@ -381,7 +381,27 @@ func Check() *common.Check {
 									c.Sample(map[string]any{"entry": en.name, "family": in.fam, "fire_at_poll": k, "polls": P, "kind": kindName(kind), "sql": common.Trim(in.sql, 120)})
 								}
 								c.Count("fault_points", 1)
-								runCase(c, en, in, k, P, kind)
+								runCase(c, en, in, k, P, kind, "")
+							})
+						}
+						// other kinds of context: what counts is what Err() says - a context cancelled with a cause of the
+						// caller's own still answers Canceled, and a hand-written context may wrap a standard one that is live
+						if strings.HasPrefix(in.fam, "clause:") || strings.HasPrefix(in.fam, "hole:") {
+							continue
+						}
+						for _, fl := range []struct {
+							name string
+							kind error
+						}{{"cause", context.Canceled}, {"live-parent", context.Canceled}, {"live-parent", context.DeadlineExceeded}} {
+							k, fl := k, fl
+							key := fmt.Sprintf("%s|%s|k=%d/%d|%s|%s", en.name, in.fam, k, P, kindName(fl.kind), fl.name)
+							e.Do(key, func(c *common.Ctx) {
+								c.Input(fmt.Sprintf("%s with %s (%s context) at poll %d of %d on: %s", en.name, kindName(fl.kind), fl.name, k, P, common.Trim(in.sql, 300)))
+								if k > 0 && k < P {
+									c.NonTrivial()
+								}
+								c.Count("fault_points", 1)
+								runCase(c, en, in, k, P, fl.kind, fl.name)
 							})
 						}
 					}
@@ -398,8 +418,8 @@ func kindName(k error) string {
 	return "DeadlineExceeded"
 }
 
-func runCase(c *common.Ctx, en entry, in input, k, P int, kind error) {
-	ctx := probe.NewCountCtx(k, kind)
+func runCase(c *common.Ctx, en entry, in input, k, P int, kind error, flavour string) {
+	ctx := probe.NewCountCtxFlavour(k, kind, flavour)
 	res, err, hasValue, residue, nres := en.run(ctx, in.sql)
 	if ctx.Fired {
 		// the call has seen the context done
@@ -446,7 +466,7 @@ func runCase(c *common.Ctx, en entry, in input, k, P int, kind error) {
 		if i == 0 {
 			name, got, want = residue(0)
 		} else {
-			_, _, _, r2, _ := en.run(probe.NewCountCtx(k, kind), in.sql)
+			_, _, _, r2, _ := en.run(probe.NewCountCtxFlavour(k, kind, flavour), in.sql)
 			name, got, want = r2(i)
 		}
 		c.Count("residue_probes", 1)
